@@ -28,6 +28,9 @@ type termKey struct {
 	rest       string
 }
 
+// budgetHook is called every 65536 new terms (time / memory / size budgets of the running harness).
+var budgetHook func()
+
 var (
 	termTab  = map[termKey]*Term{}
 	nTerms   int
@@ -58,6 +61,9 @@ func mk(op string, w int, args []*Term, val uint64, name string) *Term {
 	}
 	t := &Term{id: nTerms, op: op, args: args, w: w, val: val, name: name}
 	nTerms++
+	if nTerms&0xffff == 0 && budgetHook != nil {
+		budgetHook()
+	}
 	switch op {
 	case "true", "false", "bv":
 		t.konst, t.ctree, t.leaves = true, true, 1
